@@ -81,9 +81,16 @@ def execute(spec, want=("C01",), keep_trace=False):
                     frames[fr] = i + 1
                     w.tun_inject(side, fr, at=t0 + t_ms * 1000)
                     continue
+                if kind.startswith("embedfit"):
+                    # embed:<F> with F = what one fragment carries in this session and direction
+                    unit = frag_unit(w, sess, side)
+                    if unit is None:
+                        continue
+                    kind = "embed:%d%s" % (unit, kind[len("embedfit"):])
+                    size = max(size, 3 * unit + 60)
                 fr = scen.make_packet(side_ip(sess, side), side_ip(sess, dst), kind, size, rng, i + 1)
                 frames[fr] = i + 1
-                w.tun_inject(side, fr, at=t0 + t_ms * 1000)
+                w.tun_inject(side, fr, at=t0 + int(t_ms * 1000))
             w.run_until(t=t0 + spec.get("dur_ms", 20000) * 1000)
         res["stats"]["steps"] = w.steps
         res["stats"]["end_us"] = w.now
@@ -111,6 +118,20 @@ def execute(spec, want=("C01",), keep_trace=False):
     return res
 
 
+def frag_unit(w, sess, side):
+    """bytes of a compressed image one fragment carries: the negotiated downstream fragment size, or what one upstream
+    data query carries with the session's codec, -M limit and domain (build_hostname's arithmetic)"""
+    import codec as CD
+    us = [u for u in w.users() if u["active"] and u["auth"]]
+    if not us or us[0]["conn"] == 0:
+        return None
+    if side == "S":
+        return min(us[0]["fragsize"], 4094)
+    space = min(sess.cfg.get("maxlen") or 255, 255) - len(sess.domain) - 8
+    space -= space // 57
+    return CD.declen(CD.NAMES.get(us[0]["enc"], "b32"), space)
+
+
 def fit_fragments(w, sess, side, dst, kind, rng, ident):
     """kind = "frags:<n>:<slack>": an incompressible packet whose compressed image needs exactly n fragments in this
     session (n * unit - slack bytes; unit = the negotiated downstream fragment size, or what one upstream data query
@@ -121,15 +142,7 @@ def fit_fragments(w, sess, side, dst, kind, rng, ident):
     us = [u for u in w.users() if u["active"] and u["auth"]]
     if not us or us[0]["conn"] == 0:
         return None
-    if side == "S":
-        unit = min(us[0]["fragsize"], 4094)
-    else:
-        space = min(sess.cfg.get("maxlen") or 255, 255) - len(sess.domain) - 8
-        enc = CD.NAMES.get(us[0]["enc"], "b32")
-        if enc != "b128":       # Base128 places no dots itself either; every codec here leaves room for them
-            pass
-        space -= space // 57
-        unit = CD.declen(enc, space)
+    unit = frag_unit(w, sess, side)
     target = int(n) * unit - int(slack)
     if target < 60 or target > 60000:
         return None
@@ -448,6 +461,11 @@ def abs_c02(w, sess, frames, t0, hs_len, res):
     worst = 0
     tacc = {}
     for e in w.trace:
+        if e["ev"] == "TunOffer" and e["data"] in frames and e["t"] >= t0 and \
+                (mode == "clean" or (e["t"] - t0) >= post_ms * 1000):
+            out.append({"e": "Offer", "side": e["inst"], "p": frames[e["data"]], "t": e["t"] // 1000})
+        if e["ev"] == "TunRead" and e["data"] is not None and e["data"] in frames and e["t"] >= t0:
+            out.append({"e": "Take", "side": e["inst"], "p": frames[e["data"]], "t": e["t"] // 1000})
         if e["ev"] == "TunRead" and e["t"] in acc:
             for a in acc.pop(e["t"]):
                 out.append(a)
@@ -469,6 +487,55 @@ def abs_c02(w, sess, frames, t0, hs_len, res):
 
 
 ABSTRACT["C02"] = abs_c02
+
+
+def abs_c03s(w, sess, frames, t0, hs_len, res):
+    """MonAuth events of a run of the real CLIENT against the real server (the scripted peers of C03 compute the
+    response themselves; here the client built from the same tree does): NewSession(u) for every VACK, GoodLogin(u) when
+    a login message carries MD5(password xor u's current challenge) by the harness's own MD5, Priv for a login reply
+    that discloses addresses, for every tun write of the server and for a session that ends up authenticated."""
+    pw = res["spec"].get("server_pw", scen.PASSWORD).encode("latin-1")
+    evs = []
+    seeds = {}
+    asked = {}
+    nlogin = 0
+    for e in w.trace:
+        if e["ev"] == "Deliver" and e.get("to") == "S":
+            m = D.parse(e["data"]) if len(e["data"]) >= 12 and e["data"][:3] != proto.RAW_HDR else None
+            if m is None or m.errors or not m.qd or m.qr:
+                continue
+            c = proto.classify_query(m.qd[0][0], sess.domain)
+            asked[m.id] = c
+            if c["kind"] == "login":
+                nlogin += 1
+                u = c["uid"]
+                if u in seeds and bytes.fromhex(c["hash"]) == proto.login_hash(pw, seeds[u]):
+                    evs.append({"e": "GoodLogin", "u": u})
+        elif e["ev"] == "Send" and e["inst"] == "S":
+            m = D.parse(e["data"]) if len(e["data"]) >= 12 and e["data"][:3] != proto.RAW_HDR else None
+            if m is None or m.errors or not m.qd or not m.qr:
+                continue
+            c = asked.get(m.id) or proto.classify_query(m.qd[0][0], sess.domain)
+            pl = proto.decode_answer(m) if m.rcode == 0 else None
+            if pl is None:
+                continue
+            if c["kind"] == "version" and pl[:4] == b"VACK" and len(pl) >= 9:
+                seeds[pl[8]] = int.from_bytes(pl[4:8], "big")
+                evs.append({"e": "NewSession", "u": pl[8]})
+            elif c["kind"] == "login" and pl.count(b"-") == 3 and pl.count(b".") >= 6:
+                evs.append({"e": "Priv", "k": "LoginReply", "u": c["uid"]})
+        elif e["ev"] == "TunWrite" and e["inst"] == "S":
+            evs.append({"e": "Priv", "k": "TunWrite", "u": min(seeds) if seeds else 0})
+    for u in w.users():
+        if u["active"] and u["auth"]:
+            evs.append({"e": "Priv", "k": "Authenticated", "u": u["u"]})
+    res["stats"]["logins"] = nlogin
+    res["stats"]["goodlogins"] = sum(1 for x in evs if x["e"] == "GoodLogin")
+    res["stats"]["privs"] = sum(1 for x in evs if x["e"] == "Priv")
+    return evs
+
+
+ABSTRACT["C03S"] = abs_c03s
 
 
 def abs_c08(w, sess, frames, t0, hs_len, res):
